@@ -30,7 +30,7 @@ OUTSIDE = ["n > 3", "loss of orthogonality by rounding (the 1e-10 real/complex h
            "accuracy of the wrapped solver (contract oracle)"]
 ASSUMPTIONS = ["float64 arithmetic modelled as exact real arithmetic", "A non-singular; entries outside the zero pattern non-zero",
                "wrapped solver returns an exact solution of op(A) x = b (contract oracle with pre-image candidates)"]
-ITEM_TIMEOUT = {"quick": 110, "thorough": 300}
+ITEM_TIMEOUT = {"quick": 240, "thorough": 300}
 
 HISTS = {
     "rep-scale": [("N", "new"), ("N", "repeat"), ("N", "scale")],
